@@ -23,6 +23,9 @@
 (*    "Seen" = seen by the controller as the source of a packet-in (a frame  *)
 (*    forwarded by a cached flow is not a sighting); a cached flow is OLDER  *)
 (*    (stale) once its destination was sighted again after its installation.*)
+(*    One refinement: a frame addressed to its own source is judged as if    *)
+(*    its source had just been seen on the ingress port (an ideal bridge     *)
+(*    learns from the frame in hand first), whoever handled it.              *)
 (*    The cache itself is free: which flows are installed, how broad they    *)
 (*    are and when they disappear is NOT constrained (Apply just follows     *)
 (*    inst / tbl).  Timeouts appear nowhere in this layer.                   *)
@@ -101,30 +104,39 @@ Outdate(F, m) == {[fl EXCEPT !.stale = @ \/ fl.dst \in {0, m}] : fl \in F}
 
 \* state of switch s as the hop's decision sees it: learning comes first
 SeenAt(s, i, f, hp)  == IF hp.pktin > 0 THEN Learn(seen[s], f.src, i) ELSE seen[s]
+\* ... and as the JUDGEMENT of the hop sees it: a frame addressed to its own
+\* source shows, by itself, that this address now lives on the ingress port
+\* (an ideal bridge learns from the frame in hand before it forwards it), no
+\* matter whether the controller or a cached flow handled it
+SeenBy(s, i, f, hp)  == IF hp.pktin > 0 \/ f.dst = f.src THEN Learn(seen[s], f.src, i) ELSE seen[s]
 FlowsAt(s, i, f, hp) == IF hp.pktin > 0 THEN Outdate(flows[s], f.src) ELSE flows[s]
 Known(sn, f) == f.dst \in Hosts /\ sn[f.dst].last # 0
-OlderCached(s, i, f, hp) == \E fl \in FlowsAt(s, i, f, hp) : Covers(fl, i, f) /\ fl.stale
 
-C1(s, i, f, hp) == i \notin hp.out /\ hp.out \subseteq Ports /\ hp.dup = 0 /\ hp.mod = 0
-C2(s, i, f, hp) == Filtered(f) => hp.out = {}
-C3(s, i, f, hp) == (~Filtered(f) /\ (Group(f) \/ ~Known(SeenAt(s, i, f, hp), f)))
-                     => hp.out = Ports \ {i}
-C4a(s, i, f, hp) == (~Filtered(f) /\ ~Group(f) /\ Known(SeenAt(s, i, f, hp), f))
-                     => hp.out \subseteq SeenAt(s, i, f, hp)[f.dst].ports
-C4b(s, i, f, hp) == (/\ ~Filtered(f) /\ ~Group(f) /\ Known(SeenAt(s, i, f, hp), f)
-                     /\ (hp.pktin > 0 \/ ~OlderCached(s, i, f, hp)))
-                     => hp.out = {SeenAt(s, i, f, hp)[f.dst].last} \ {i}
-C5(s, i, f, hp) == hp.buf = 0
+\* the clauses; sn = sightings, known / older as seen by this hop
+C1(i, hp)               == i \notin hp.out /\ hp.out \subseteq Ports /\ hp.dup = 0 /\ hp.mod = 0
+C2(f, hp)               == Filtered(f) => hp.out = {}
+C3(i, f, hp, known)     == (~Filtered(f) /\ (Group(f) \/ ~known)) => hp.out = Ports \ {i}
+C4a(f, hp, sn, known)   == (~Filtered(f) /\ ~Group(f) /\ known) => hp.out \subseteq sn[f.dst].ports
+C4b(i, f, hp, sn, known, older) ==
+  (~Filtered(f) /\ ~Group(f) /\ known /\ (hp.pktin > 0 \/ ~older)) => hp.out = {sn[f.dst].last} \ {i}
+C5(hp)                  == hp.buf = 0
 
-HopOK(s, i, f, hp) == /\ C1(s, i, f, hp) /\ C2(s, i, f, hp) /\ C3(s, i, f, hp)
-                      /\ C4a(s, i, f, hp) /\ C4b(s, i, f, hp) /\ C5(s, i, f, hp)
+Judge(s, i, f, hp) ==
+  LET sn    == SeenBy(s, i, f, hp)
+      known == Known(sn, f)
+      older == \E fl \in FlowsAt(s, i, f, hp) : Covers(fl, i, f) /\ fl.stale
+  IN [c1 |-> C1(i, hp), c2 |-> C2(f, hp), c3 |-> C3(i, f, hp, known),
+      c4a |-> C4a(f, hp, sn, known), c4b |-> C4b(i, f, hp, sn, known, older), c5 |-> C5(hp)]
+HopOK(s, i, f, hp) ==
+  LET j == Judge(s, i, f, hp) IN j.c1 /\ j.c2 /\ j.c3 /\ j.c4a /\ j.c4b /\ j.c5
 Failed(s, i, f, hp) ==
-  (IF C1(s, i, f, hp) THEN <<>> ELSE <<"C1-ingress-dup-modified">>) \o
-  (IF C2(s, i, f, hp) THEN <<>> ELSE <<"C2-filtered-forwarded">>) \o
-  (IF C3(s, i, f, hp) THEN <<>> ELSE <<"C3-flood">>) \o
-  (IF C4a(s, i, f, hp) THEN <<>> ELSE <<"C4a-port-never-seen">>) \o
-  (IF C4b(s, i, f, hp) THEN <<>> ELSE <<"C4b-not-most-recent-port">>) \o
-  (IF C5(s, i, f, hp) THEN <<>> ELSE <<"C5-buffer-leak">>)
+  LET j == Judge(s, i, f, hp) IN
+  (IF j.c1 THEN <<>> ELSE <<"C1-ingress-dup-modified">>) \o
+  (IF j.c2 THEN <<>> ELSE <<"C2-filtered-forwarded">>) \o
+  (IF j.c3 THEN <<>> ELSE <<"C3-flood">>) \o
+  (IF j.c4a THEN <<>> ELSE <<"C4a-port-never-seen">>) \o
+  (IF j.c4b THEN <<>> ELSE <<"C4b-not-most-recent-port">>) \o
+  (IF j.c5 THEN <<>> ELSE <<"C5-buffer-leak">>)
 
 \* the hops are exactly the frame's way through the network: it starts where
 \* the host is attached, follows every link it was emitted on, visits a
@@ -195,7 +207,8 @@ DesignHop(s, i, f, cache) ==
        LET ex == {fl \in hits : fl.inp # 0}
            fl == IF ex # {} THEN CHOOSE x \in ex : TRUE ELSE CHOOSE x \in hits : TRUE
        IN [s |-> s, i |-> i, pktin |-> 0, out |-> fl.out \ {i}, dup |-> 0, mod |-> 0,
-           inst |-> {}, tbl |-> Pats(flows[s]), buf |-> 0]
+           inst |-> {}, tbl |-> Pats(flows[s]), buf |-> 0,
+           via |-> IF fl.stale THEN "older-flow" ELSE IF fl.out = {} THEN "drop-flow" ELSE "flow"]
   ELSE \* table miss: packet-in; the controller learns, then decides
        LET sn    == Learn(seen[s], f.src, i)
            known == Known(sn, f)
@@ -208,7 +221,9 @@ DesignHop(s, i, f, cache) ==
                     THEN {NewFlow(IF DropInPort THEN i ELSE 0, f, {}, DropTO, DropTO)}
                     ELSE {NewFlow(i, f, {p}, IdleTO, HardTO)}
        IN [s |-> s, i |-> i, pktin |-> 1, out |-> out, dup |-> 0, mod |-> 0,
-           inst |-> inst, tbl |-> Pats(flows[s]) \cup Pats(inst), buf |-> 0]
+           inst |-> inst, tbl |-> Pats(flows[s]) \cup Pats(inst), buf |-> 0,
+           via |-> IF Filtered(f) THEN "filtered" ELSE IF Group(f) \/ ~known THEN "flood"
+                   ELSE IF p = i THEN "same-port" ELSE "forward"]
 
 RECURSIVE Walk(_, _, _, _)
 Walk(todo, done, f, cache) ==
@@ -218,9 +233,9 @@ Walk(todo, done, f, cache) ==
            nxt == {LinkPeer[<<a[1], q>>] : q \in {r \in hp.out : <<a[1], r>> \in LinkEnds}}
        IN Walk((todo \ {a}) \cup nxt, done \cup {hp}, f, cache)
 
-NoObs == [a |-> "Init", args |-> [x |-> 0], exp |-> [x |-> 0]]
-Log(a, args, exp) ==
-  /\ last' = [a |-> a, args |-> args, exp |-> exp]
+NoObs == [a |-> "Init", args |-> [x |-> 0], exp |-> [x |-> 0], full |-> {}]
+Log(a, args, exp, full) ==
+  /\ last' = [a |-> a, args |-> args, exp |-> exp, full |-> full]
   /\ hist' = Append(hist, [a |-> a, args |-> args, exp |-> exp])
 
 Brief(hops) == {[s |-> hp.s, i |-> hp.i, pktin |-> hp.pktin, out |-> hp.out] : hp \in hops}
@@ -237,24 +252,41 @@ Send(h, dst, sh, cache) ==
   LET f == Frame(h, dst, sh)
       hops == Walk({at[h]}, {}, f, cache)
   IN /\ Effect(f, hops)
-     /\ Log("Send", [h |-> h, dst |-> dst, sh |-> sh], [hops |-> Brief(hops), full |-> hops])
+     /\ Log("Send", [h |-> h, dst |-> dst, sh |-> sh], [hops |-> Brief(hops)], hops)
 
 Move(h, sp) ==
   /\ sp # at[h]
   /\ at' = [at EXCEPT ![h] = sp]
   /\ UNCHANGED <<seen, flows, bufs>>
-  /\ Log("Move", [h |-> h, s |-> sp[1], p |-> sp[2]], [x |-> 0])
+  /\ Log("Move", [h |-> h, s |-> sp[1], p |-> sp[2]], [x |-> 0], {})
 
 Tick(d, sweep) ==
   LET tbls == [s \in Switches |->
                  Pats({fl \in {Older(x, d) : x \in flows[s]} : ~sweep \/ ~Expired(fl)})]
   IN /\ TickObs(d, tbls)
-     /\ Log("Tick", [d |-> d, sweep |-> sweep], [tbls |-> tbls])
+     /\ Log("Tick", [d |-> d, sweep |-> sweep], [tbls |-> tbls], {})
 
 SendAny == \E h \in Hosts, dst \in Dsts, sh \in Shapes, c \in Caches : Send(h, dst, sh, c)
 MoveAny == \E h \in Hosts, sp \in MovePorts : Move(h, sp)
 TickAny == \E d \in Gaps, sw \in Sweeps : Tick(d, sw)
 Next == SendAny \/ MoveAny \/ TickAny
+
+\* the same relation, split by what happened (names for TLC's coverage report:
+\* a case that no transition exercises makes the model run vacuous)
+HasVia(k) == \E hp \in last'.full : hp.via = k
+ViaFiltered  == \E h \in Hosts, dst \in Dsts, sh \in Shapes, c \in Caches : Send(h, dst, sh, c) /\ HasVia("filtered")
+ViaFlood     == \E h \in Hosts, dst \in Dsts, sh \in Shapes, c \in Caches : Send(h, dst, sh, c) /\ HasVia("flood")
+ViaForward   == \E h \in Hosts, dst \in Dsts, sh \in Shapes, c \in Caches : Send(h, dst, sh, c) /\ HasVia("forward")
+ViaSamePort  == \E h \in Hosts, dst \in Dsts, sh \in Shapes, c \in Caches : Send(h, dst, sh, c) /\ HasVia("same-port")
+ViaFlow      == \E h \in Hosts, dst \in Dsts, sh \in Shapes, c \in Caches : Send(h, dst, sh, c) /\ HasVia("flow")
+ViaDropFlow  == \E h \in Hosts, dst \in Dsts, sh \in Shapes, c \in Caches : Send(h, dst, sh, c) /\ HasVia("drop-flow")
+ViaOlderFlow == \E h \in Hosts, dst \in Dsts, sh \in Shapes, c \in Caches : Send(h, dst, sh, c) /\ HasVia("older-flow")
+ViaLink      == \E h \in Hosts, dst \in Dsts, sh \in Shapes, c \in Caches :
+                 Send(h, dst, sh, c) /\ Cardinality(last'.full) > 1
+TickExpires  == \E d \in Gaps, sw \in Sweeps : Tick(d, sw) /\ flows' # flows /\ \E s \in Switches : Cardinality(flows'[s]) < Cardinality(flows[s])
+TickKeeps    == \E d \in Gaps, sw \in Sweeps : Tick(d, sw) /\ \A s \in Switches : Cardinality(flows'[s]) = Cardinality(flows[s])
+NextC == ViaFiltered \/ ViaFlood \/ ViaForward \/ ViaSamePort \/ ViaFlow \/ ViaDropFlow \/ ViaOlderFlow
+         \/ ViaLink \/ MoveAny \/ TickExpires \/ TickKeeps
 Spec == Init /\ [][Next]_vars
 
 ----------------------------------------------------------------------------
@@ -274,10 +306,9 @@ NoLeak == \A s \in Switches : bufs[s] = 0
 
 \* a frame of the design never meets two cached flows at once when the drop
 \* flow carries its ingress port (the table's tie-breaking is not relied upon)
-UniqueHit ==
-  DropInPort => \A s \in Switches : \A x, y \in flows[s] :
-     (x # y) => ~\E i \in Ports, m \in Hosts, d \in Dsts, sh \in AllShapes :
-                   Covers(x, i, Frame(m, d, sh)) /\ Covers(y, i, Frame(m, d, sh))
+Overlap(x, y) == /\ (x.inp = 0 \/ y.inp = 0 \/ x.inp = y.inp) /\ (x.src = 0 \/ y.src = 0 \/ x.src = y.src)
+                 /\ (x.dst = 0 \/ y.dst = 0 \/ x.dst = y.dst) /\ x.shs \cap y.shs # {}
+UniqueHit == DropInPort => \A s \in Switches : \A x, y \in flows[s] : (x # y) => ~Overlap(x, y)
 
 \* every cached forwarding flow points at a port where its destination was
 \* seen; a flow that is not OLDER points at the most recent one
@@ -292,30 +323,28 @@ CacheSound ==
 Conforms ==
   [][last'.a = "Send" =>
        LET f == Frame(last'.args.h, last'.args.dst, last'.args.sh) IN
-       /\ Routed(last'.args.h, last'.exp.full)
-       /\ \A hp \in last'.exp.full : HopOK(hp.s, hp.i, f, hp)]_vars
+       /\ Routed(last'.args.h, last'.full)
+       /\ \A hp \in last'.full : HopOK(hp.s, hp.i, f, hp)]_vars
 
 \* readable corollaries of Conforms, stated directly on the deliveries
 NeverBack ==
-  [][last'.a = "Send" => \A hp \in last'.exp.full : hp.i \notin hp.out]_vars
+  [][last'.a = "Send" => \A hp \in last'.full : hp.i \notin hp.out]_vars
 FilteredStay ==
   [][(last'.a = "Send" /\ (last'.args.sh = "l" \/ last'.args.dst = FILT))
-        => \A hp \in last'.exp.full : hp.out = {}]_vars
+        => \A hp \in last'.full : hp.out = {}]_vars
 FloodAll ==
   [][(last'.a = "Send" /\ last'.args.sh # "l" /\ last'.args.dst \in {UNK, BCAST, MCAST})
-        => \A hp \in last'.exp.full : hp.out = Ports \ {hp.i}]_vars
+        => \A hp \in last'.full : hp.out = Ports \ {hp.i}]_vars
 \* a frame to a host the switch's controller has sighted, decided by the
 \* controller, leaves through exactly the port of the latest sighting
 FreshDecision ==
   [][(last'.a = "Send" /\ last'.args.sh # "l" /\ last'.args.dst \in Hosts)
-        => \A hp \in last'.exp.full :
+        => \A hp \in last'.full :
              (hp.pktin = 1 /\ seen'[hp.s][last'.args.dst].last # 0)
                 => hp.out = {seen'[hp.s][last'.args.dst].last} \ {hp.i}]_vars
 
 \* ---- export for the harness
 Bound   == Len(hist) <= D
-Strip(h) == [k \in 1..Len(h) |-> [a |-> h[k].a, args |-> h[k].args,
-               exp |-> IF h[k].a = "Send" THEN [hops |-> h[k].exp.hops] ELSE h[k].exp]]
-Export  == (Len(hist) = D) => PrintT(<<"H", ToJson(Strip(hist))>>)
-ExportT == PrintT(<<"T", ToJson(Strip(hist'))>>)
+Export  == (Len(hist) = D) => PrintT(<<"H", ToJson(hist)>>)
+ExportT == PrintT(<<"T", ToJson(hist')>>)
 =============================================================================
